@@ -374,14 +374,14 @@ func prepareSearch(input *QueryInput, index *index, k, startKey, startIndexKey s
 		return pk, true
 	}
 
-	if pk == startKey {
+	if pk == startKey && (index == nil || k == startIndexKey) {
 		input.started = true
 
 		return "", false
 	}
 
-	// the item named by the start key may have been deleted in the meantime,
-	// the search resumes at the first entry positioned after it
+	// the item named by the start key may have been deleted in the meantime, or - in an index - have
+	// moved to another position: the search resumes at the first entry positioned after the key
 	if isAfterStartKey(input.ScanIndexForward, index, k, pk, startKey, startIndexKey) {
 		input.started = true
 
